@@ -366,40 +366,36 @@ func runC18(c *engine.Ctx) {
 	if vd := fn(c, "pkg/config/v1/validation.validateDomainConfigForServer"); vd != nil {
 		subF := field(c, "pkg/config/v1", "ServerConfig", "SubDomainHost")
 		cnt := 0
-		engine.ForEachInstr(vd, func(in ssa.Instruction) {
-			call, ok := in.(*ssa.Call)
-			if !ok {
-				return
-			}
-			o := engine.CalleeObj(call)
-			if o == nil || o.Pkg() == nil || o.Pkg().Path() != "strings" {
-				return
-			}
-			switch o.Name() {
-			case "Contains", "HasSuffix", "EqualFold", "HasPrefix":
-			default:
-				return
-			}
-			// only comparisons that involve the subdomain host
-			s0 := engine.Provenance(call.Call.Args[0], engine.ProvOpts{})
-			s1 := engine.Provenance(call.Call.Args[1], engine.ProvOpts{})
-			if !s0.HasField(subF) && !s1.HasField(subF) {
-				return
-			}
-			cnt++
-			n++
-			lowered := func(s *engine.Sources) bool {
-				for k := range s.Calls {
-					if k.Pkg() != nil && k.Pkg().Path() == "strings" && (k.Name() == "ToLower" || k.Name() == "ToUpper") {
-						return true
-					}
+		for _, host := range withHelpers(vd) { // the comparison may sit in an extracted predicate
+			host := host
+			engine.ForEachInstr(host, func(in ssa.Instruction) {
+				call, ok := in.(*ssa.Call)
+				if !ok {
+					return
 				}
-				return false
-			}
-			okc := o.Name() == "EqualFold" || (lowered(s0) && lowered(s1))
-			c.Check(okc, fmt.Sprintf("pkg/config/v1/validation.validateDomainConfigForServer>%s#%d", o.Name(), cnt), in.Pos(), 2, nil,
-				"custom domain vs subdomain host comparison is case-insensitive (the routers index lower-cased hosts)")
-		})
+				o := engine.CalleeObj(call)
+				if o == nil || o.Pkg() == nil || o.Pkg().Path() != "strings" {
+					return
+				}
+				switch o.Name() {
+				case "Contains", "HasSuffix", "EqualFold", "HasPrefix":
+				default:
+					return
+				}
+				// only comparisons that involve the subdomain host
+				s0 := provThroughCallers(call.Call.Args[0], host, vd)
+				s1 := provThroughCallers(call.Call.Args[1], host, vd)
+				if !s0.HasField(subF) && !s1.HasField(subF) {
+					return
+				}
+				cnt++
+				n++
+				lowered := func(s srcSet) bool { return s[:1].HasCallNamed("strings", "ToLower", "ToUpper") }
+				okc := o.Name() == "EqualFold" || (lowered(s0) && lowered(s1))
+				c.Check(okc, fmt.Sprintf("pkg/config/v1/validation.validateDomainConfigForServer>%s#%d", o.Name(), cnt), in.Pos(), 2, nil,
+					"custom domain vs subdomain host comparison is case-insensitive (the routers index lower-cased hosts)")
+			})
+		}
 		if cnt == 0 {
 			c.Undecide("pkg/config/v1/validation.validateDomainConfigForServer", vd.Pos(), "no comparison of a custom domain with SubDomainHost found")
 		}
